@@ -224,9 +224,6 @@ func check(o *vsched.Outcome) (string, string) {
 	return "", ""
 }
 
-// fourOnly: sequences of length 4 are enumerated over operations on the watched file only and the reduced gap set.
-func fourOnly(prefix []step, k string) bool { return len(prefix) == 3 }
-
 func main() {
 	validated := 0
 	if os.Getenv("VSCHED_WORKER") == "" {
@@ -255,12 +252,17 @@ func main() {
 	if thorough || os.Getenv("VSCHED_WORKER") != "" {
 		maxLen = 4 // workers must know every scenario name; length 4 uses the reduced gap set {5 ms, 1.5 s}
 	}
+	// lengths 1..3: full alphabet; length 4 (thorough): operations on the watched file only, gaps {5 ms, 1.5 s}
+	fullLen := maxLen
+	if fullLen > 3 {
+		fullLen = 3
+	}
 	var rec func(prefix []step)
 	rec = func(prefix []step) {
 		if len(prefix) > 0 {
 			add(prefix)
 		}
-		if len(prefix) == maxLen {
+		if len(prefix) == fullLen {
 			return
 		}
 		for _, k := range opKinds {
@@ -268,17 +270,32 @@ func main() {
 				if len(prefix) == 0 && g != 0 {
 					continue // the gap before the first operation is irrelevant
 				}
-				if maxLen == 4 && len(prefix) > 0 && (g == 0 || g == 500*time.Millisecond) && fourOnly(prefix, k) {
-					continue
-				}
-				if len(prefix) == 3 && k == opTouchO {
-					continue
-				}
 				rec(append(append([]step{}, prefix...), step{k, g}))
 			}
 		}
 	}
 	rec(nil)
+	if maxLen == 4 {
+		var rec4 func(prefix []step)
+		rec4 = func(prefix []step) {
+			if len(prefix) == 4 {
+				add(prefix)
+				return
+			}
+			for _, k := range []string{opWrite, opRemove, opCreate, opRename} {
+				for _, g := range []time.Duration{5 * time.Millisecond, 1500 * time.Millisecond} {
+					if len(prefix) == 0 {
+						g = 0
+					}
+					rec4(append(append([]step{}, prefix...), step{k, g}))
+					if len(prefix) == 0 {
+						break
+					}
+				}
+			}
+		}
+		rec4(nil)
+	}
 	extra := func(r *vcommon.Run) (int64, int64, int64, string) {
 		r.Set("fsnotify_conformance_runs", validated)
 		return 0, 0, 0, fmt.Sprintf("scenarios = all sequences of <=%d operations over %v with virtual gaps %v before each; the event model was validated against the real fsnotify in %d runs", maxLen, opKinds, gaps, validated)
